@@ -180,7 +180,7 @@ def big_records(lo=41, hi=260):
         lambda b: [b[i:i + 64] for i in range(0, len(b), 64)])
 
 
-def v3_spec(max_events=80, max_n=30, with_logs=True, tids=None, records_strategy=None, log_copies=2, force_logs=False):
+def v3_spec(max_events=80, max_n=30, with_logs=True, tids=None, records_strategy=None, log_copies=2, force_logs=False, decoy_often=False):
     recs = records_strategy if records_strategy is not None else st.one_of(
         st.lists(S.record64(), max_size=max_events), st.lists(S.record64(), min_size=min(4, max_events), max_size=min(16, max_events)),
         *([big_records()] if max_events >= 80 else []))
@@ -210,8 +210,8 @@ def v3_spec(max_events=80, max_n=30, with_logs=True, tids=None, records_strategy
             'xml': st.lists(st.booleans(), min_size=12, max_size=12),
             'last_pad': st.booleans(),
             # look-alike sections inside the stackshot ("the threadmap tag appears randomly in the stackshot")
-            'decoy': st.one_of(st.none(), st.none(), st.fixed_dictionaries({
-                'tm': threadmap(3), 'recs': st.lists(S.record64(), min_size=1, max_size=3), 'gap': st.binary(max_size=12)})),
+            'decoy': st.one_of(*([st.none()] * (1 if decoy_often else 2)), *([st.fixed_dictionaries({
+                'tm': threadmap(3), 'recs': st.lists(S.record64(), min_size=1, max_size=3), 'gap': st.binary(max_size=12)})] * (2 if decoy_often else 1))),
             **({'forced_logs': st.lists(logrec, min_size=2, max_size=6)} if force_logs else {}),
         }).map(_merge_forced)
     return _logs.string_table().flatmap(with_table)
